@@ -42,6 +42,11 @@ def load_contracts():
 def make_engine(api):
     from . import verify
     eng = verify.build_engine(REPO, CONTRACTS_DIR)
+    try:
+        from contracts.common import AVP_ELEM
+        eng.default_elem = AVP_ELEM
+    except Exception:  # noqa
+        pass
     for c in api.REGISTRY:
         t = c.target_obj
         if c.at_calls:
